@@ -64,6 +64,36 @@ CHECKS = {
          "image, pointer arithmetic, decoded = added), deviations rejected; ~40k real payloads (MC sequences concretised, edge values of "
          "every type, random 1-12 field payloads) built and decoded via bytes and via registers, every add/decode validated by TLC.",
          "4 C19", "TLC model checking (PayloadMC) + TLC trace validation (PayloadTrace)"),
+ "C09": ("Server", "model_checking",
+         "ServerMC: two connections, hosted sets {1},{1,2},{0,1}, all flag combinations, requests to units 0..3, whole and split frames "
+         "in every interleaving: response goes to the requesting connection with its ids and function code, silence rules for broadcast "
+         "and ignored missing units; deviations rejected. The seven real front-ends (threaded TCP/serial/UDP, asyncio TCP/UDP, Twisted "
+         "TCP/UDP) are driven in-process with pipelined request histories on every framing they accept; every input event is validated by "
+         "TLC against Server!Serve (one well-formed response frame per request, header and data).", "4 C09",
+         "TLC model checking (ServerMC) + TLC trace validation (ServerTrace strict mode) of 7 front-ends"),
+ "C10": ("Server", "model_checking",
+         "ServerMC action property: only the addressed unit's tables change, a broadcast write reaches every hosted unit exactly once, "
+         "missing units change nothing; the real front-ends are driven with unit ids 0..255 (sampled in quick) against hosted sets "
+         "including 0 / 255 / 247, single/multi, broadcast and ignore flags, with per-unit store dumps before/after each event "
+         "validated by TLC.", "4 C10", "TLC model checking (ServerMC C10Step) + TLC trace validation (ServerTrace UnitStore)"),
+ "C12": ("Server", "fault_enumeration",
+         "Hostile byte streams (random bytes, bit-flipped and truncated frames, checksum-valid frames with truncated / over-long / "
+         "inconsistent PDUs, MBAP lengths 0/1/65535) are fed to all seven front-ends; TLC checks per event that no exception escapes, every "
+         "write is a well-formed frame answering a request justified by the input (ghost frames, every length-consistent MBAP slice, every "
+         "LRC-valid ASCII segment), every store change is a cell/value a justified write request prescribes, and a probe on a fresh "
+         "connection (serial: after the resynchronisation allowance) is answered correctly.", "4 C12",
+         "fault enumeration judged by TLC (ServerTrace hostile mode) + ServerMC"),
+ "C17": ("Server", "model_checking",
+         "Relational: the same request history (data-access and identification requests) is run on every front-end that accepts the "
+         "framing and TLC requires identical per-event response frames, store changes and connection state; 2-3 connections interleaved "
+         "with random chunk boundaries are compared with each connection run alone (framing state is private). ServerMC checks the "
+         "isolation property with a ghost of what each connection really sent and rejects a shared framer.", "4 C17",
+         "TLC model checking (ServerMC Isolation) + TLC relational trace validation (ServerRelTrace)"),
+ "C20": ("Mei", "model_checking",
+         "MeiMC: the client chain over identities of up to 4-8 objects with boundary lengths (exact-fit and one-over pages), all read "
+         "codes and start ids: size bound, termination (safety bound and liveness), exactly-once completeness, more/next rule; deviations "
+         "rejected. ~20k real chains through ServerDecoder -> execute -> encode -> ClientDecoder validated page by page by TLC.", "4 C20",
+         "TLC model checking incl. liveness (MeiMC) + TLC trace validation (MeiTrace)"),
 }
 NA_REASON = "check not built yet in this round (see DESIGN.md section 8 for the order of work); no claim is made"
 ALL = ["C%02d" % i for i in range(1, 21)]
